@@ -252,3 +252,297 @@ reg("C08", std_layers(0.002))
 reg("C09", std_layers(0.002))
 reg("C20", std_layers(0.02))
 reg("C14", std_layers(0.0005))
+
+
+# ------------------------------------------------------------------------------------------------
+# C15: environment interposer, syscall window, artefact sections, auto-traits, ThreadSanitizer
+
+def build_shim(env):
+    so = os.path.join(env.work, "envmon.so")
+    src = os.path.join(env.here, "shims", "envmon.c")
+    if not os.path.exists(so) or os.path.getmtime(so) < os.path.getmtime(src):
+        rc, out, err, _ = run(["gcc", "-shared", "-fPIC", "-O2", "-o", so, src, "-ldl"], timeout=120)
+        if rc != 0:
+            raise LayerInconclusive("cannot build the environment interposer: %s" % err.strip()[-300:])
+    return so
+
+
+def viol(what, inp, expected, observed, seed):
+    return {"what": what, "input": inp, "expected": expected, "observed": observed, "signature": "%s | %s" % (what, inp), "workload": 0, "index": 0, "seed": seed}
+
+
+def envmon_layer(env):
+    @layer("envmon")
+    def f():
+        so = build_shim(env)
+        binary = build_harness(env, "release")
+        log = os.path.join(env.work, "envlog-%d.txt" % os.getpid())
+        runs = []
+        violations = []
+        total_events = 0
+        # baseline + perturbed ambient state: TZ, TZDIR, LANG, working directory
+        variants = [("baseline", {}, env.harness), ("TZ=Asia/Tokyo", {"TZ": "Asia/Tokyo"}, env.harness), ("TZ=:/nonexistent TZDIR=/nonexistent", {"TZ": ":/nonexistent", "TZDIR": "/nonexistent"}, env.harness), ("LANG=fr_FR.UTF-8 LC_ALL=tr_TR cwd=/", {"LANG": "fr_FR.UTF-8", "LC_ALL": "tr_TR.UTF-8"}, "/")]
+        digests = {}
+        evaluations = 0
+        for name, extra, cwd in variants:
+            if os.path.exists(log):
+                os.unlink(log)
+            fd, out = tempfile.mkstemp(prefix="c15-", suffix=".json", dir=env.work)
+            os.close(fd)
+            e = base_env()
+            e.pop("TZ", None)
+            e.update(extra)
+            e["LD_PRELOAD"] = so
+            e["TZMON_ENVLOG"] = log
+            cmd = [binary, "C15", "--tier", env.tier, "--seed", str(env.seed), "--threads", str(env.threads), "--scale", "0.25", "--corpus", env.corpus, "--out", out]
+            try:
+                rc, so_, se, wall = run(cmd, cwd=cwd, env=e, timeout=900)
+                if rc != 0:
+                    raise LayerInconclusive("tzmon under the interposer exited with %s: %s" % (rc, se.strip()[-300:]))
+                with open(out) as fh:
+                    doc = json.load(fh)
+            finally:
+                if os.path.exists(out):
+                    os.unlink(out)
+            evaluations += int(doc.get("evaluations", 0))
+            digests[name] = doc.get("workload_digest")
+            for v in doc.get("violations", []):
+                violations.append(v)
+            lines = open(log).read().splitlines() if os.path.exists(log) else []
+            total_events += len(lines)
+            if not lines or not lines[0].startswith("init"):
+                raise LayerInconclusive("interposer not loaded (no init line)")
+            try:
+                b = lines.index("getenv TZMON_WINDOW_BEGIN")
+                en = lines.index("getenv TZMON_WINDOW_END")
+            except ValueError:
+                raise LayerInconclusive("window markers missing from the interposer log")
+            if "getenv TZMON_LIVENESS_PROBE" not in lines[:b]:
+                raise LayerInconclusive("liveness probe (a getenv before the window) not seen: the monitor is blind")
+            inside = [ln for ln in lines[b + 1:en] if not ln.startswith("getenv RUST_")]
+            runs.append({"variant": name, "events": len(lines), "events_in_window": len(lines[b + 1:en]), "non_std_events_in_window": inside[:5]})
+            for ln in inside[:5]:
+                violations.append(viol("ambient state: environment / libc time-zone call inside the workload window", "variant %s seed %d" % (name, env.seed), "no getenv/setenv/putenv/tzset/localtime* call other than std's own RUST_* lookups", ln, env.seed))
+        if os.path.exists(log):
+            os.unlink(log)
+        base = digests.get("baseline")
+        for name, d in digests.items():
+            if d != base:
+                violations.append(viol("ambient state: results depend on TZ / TZDIR / LANG / working directory", "variant %s seed %d" % (name, env.seed), "workload digest %s" % base, "workload digest %s" % d, env.seed))
+        return {"name": "envmon", "profile": "release", "evaluations": evaluations, "violations": violations, "replay_spec": None, "extra": {"runs": runs, "digests": digests, "interposer_events": total_events}, "samples": [runs[0]] if runs else [], "inconclusive": [] if total_events else ["interposer saw no event"]}
+    return f
+
+
+def strace_layer(env, prop="C15", scale="0.25"):
+    @layer("strace")
+    def f():
+        if not shutil.which("strace"):
+            raise LayerInconclusive("strace not available")
+        binary = build_harness(env, "release")
+        log = os.path.join(env.work, "strace-%s-%d.txt" % (prop, os.getpid()))
+        fd, out = tempfile.mkstemp(prefix="strace-", suffix=".json", dir=env.work)
+        os.close(fd)
+        cmd = ["strace", "-f", "-qq", "-e", "trace=open,openat,openat2,creat,access,connect,socket", "-o", log, binary, prop, "--tier", env.tier, "--seed", str(env.seed), "--threads", "8", "--scale", scale, "--corpus", env.corpus, "--out", out]
+        try:
+            rc, so_, se, wall = run(cmd, cwd=env.harness, timeout=900)
+            if rc != 0:
+                raise LayerInconclusive("tzmon under strace exited with %s: %s" % (rc, se.strip()[-300:]))
+            with open(out) as fh:
+                doc = json.load(fh)
+            lines = open(log).read().splitlines()
+        finally:
+            for p in (out, log):
+                if os.path.exists(p):
+                    os.unlink(p)
+        b = next((i for i, ln in enumerate(lines) if "/tzmon-window-begin" in ln), None)
+        en = next((i for i, ln in enumerate(lines) if "/tzmon-window-end" in ln), None)
+        if b is None or en is None:
+            raise LayerInconclusive("window markers missing from the strace log")
+        opens_before = [ln for ln in lines[:b] if "open" in ln]
+        if not opens_before:
+            raise LayerInconclusive("no open* syscall seen before the window: the monitor is blind")
+        # glibc's allocator sizes its arenas when a thread first allocates: it reads these files itself
+        # (not tz-rs, which has no allocator of its own); everything else inside the window is reported
+        libc_internal = ('"/sys/devices/system/cpu', '"/proc/sys/vm/', '"/sys/kernel/mm/')
+        inside = [ln for ln in lines[b + 1:en] if ("open" in ln or "creat(" in ln or "socket(" in ln or "connect(" in ln) and "resumed>" not in ln and not any(w in ln for w in libc_internal)]
+        violations = list(doc.get("violations", []))
+        for ln in inside[:5]:
+            violations.append(viol("ambient state: a file is opened inside the workload window although only the injected reader is configured", "strace of tzmon %s seed %d" % (prop, env.seed), "no open*/creat/socket syscall between the window markers", ln.strip(), env.seed))
+        return {"name": "strace", "profile": "release", "evaluations": int(doc.get("evaluations", 0)), "violations": violations, "replay_spec": None, "extra": {"syscalls_logged": len(lines), "open_calls_before_window": len(opens_before), "syscalls_in_window": en - b - 1, "open_calls_in_window": len(inside)}, "samples": [{"window_syscalls": en - b - 1, "first_open_before_window": opens_before[0].strip()[:160]}]}
+    return f
+
+
+def sections_layer(env):
+    @layer("sections")
+    def f():
+        tdir = os.path.join(env.here, "traits", "target")
+        e = base_env()
+        e["CARGO_TARGET_DIR"] = tdir
+        rc, out, err, wall = run(["cargo", "build", "--offline", "--release"], cwd=os.path.join(env.here, "traits"), env=e, timeout=900)
+        if rc != 0:
+            # the auto-trait layer interprets build errors; here any failure is inconclusive
+            raise LayerInconclusive("cannot build the tz rlib for the artefact scan: %s" % err.strip()[-300:])
+        import glob
+        rlibs = sorted(glob.glob(os.path.join(tdir, "release", "deps", "libtz-*.rlib")), key=os.path.getmtime)
+        if not rlibs:
+            raise LayerInconclusive("tz rlib not found")
+        rlib = rlibs[-1]
+        rc, out, err, _ = run(["readelf", "-S", "-W", rlib], timeout=120)
+        if rc != 0 and not out:
+            raise LayerInconclusive("readelf failed: %s" % err.strip()[-200:])
+        bad = []
+        nsec = 0
+        writable = 0
+        import re
+        for ln in out.splitlines():
+            m = re.match(r"\s*\[\s*\d+\]\s+(\S+)\s+(\S+)\s+[0-9a-f]+\s+[0-9a-f]+\s+([0-9a-f]+)\s+[0-9a-f]+\s+([A-Za-z]*)\s", ln)
+            if not m:
+                continue
+            name, typ, size, flags = m.group(1), m.group(2), int(m.group(3), 16), m.group(4)
+            nsec += 1
+            if ("W" in flags or "T" in flags) and size > 0:
+                writable += 1
+                if not (name.startswith(".data.rel.ro") or name.startswith(".data.DW.ref.")):
+                    bad.append("%s type=%s size=%d flags=%s" % (name, typ, size, flags))
+        if nsec == 0:
+            raise LayerInconclusive("no section parsed from readelf output")
+        violations = [viol("global state: the compiled crate carries a writable or thread-local section", os.path.basename(rlib), "only .data.rel.ro* and .data.DW.ref.* (compiler-generated, read-only after relocation)", b, env.seed) for b in bad[:5]]
+        return {"name": "sections", "profile": "release", "evaluations": nsec, "violations": violations, "replay_spec": None, "extra": {"sections": nsec, "writable_or_tls_sections": writable, "offending": bad[:10]}, "samples": [{"rlib": os.path.basename(rlib), "sections": nsec, "writable_relro_sections": writable}]}
+    return f
+
+
+def traits_layer(env):
+    @layer("auto-traits")
+    def f():
+        import re, glob
+        res = []
+        violations = []
+        for toolchain, feats in ((None, None), ("nightly", "freeze")):
+            cmd = ["cargo"] + (["+" + toolchain] if toolchain else []) + ["build", "--offline"] + (["--features", feats] if feats else [])
+            e = base_env()
+            e["CARGO_TARGET_DIR"] = os.path.join(env.here, "traits", "target-%s" % (toolchain or "stable"))
+            rc, out, err, wall = run(cmd, cwd=os.path.join(env.here, "traits"), env=e, timeout=900)
+            if rc != 0:
+                blocks = err.split("\nerror")
+                e277 = [b for b in blocks if b.startswith("[E0277]") and "src/lib.rs" in b]
+                if e277:
+                    for b in e277[:5]:
+                        first = " ".join(b.splitlines()[:6])
+                        violations.append(viol("a public type lost an auto trait (Send / Sync / Unpin / UnwindSafe / Freeze)", "traits crate, %s" % (toolchain or "stable"), "every public type is Send + Sync + Unpin%s" % (" + Freeze" if feats else ""), first[:400], env.seed))
+                else:
+                    raise LayerInconclusive("traits crate does not build (%s) for another reason than E0277: %s" % (toolchain or "stable", err.strip()[-300:]))
+            res.append({"toolchain": toolchain or "stable", "features": feats, "ok": rc == 0})
+        # completeness of the list: every pub struct / enum of the sources must be covered
+        covered = set(re.findall(r'"(\w+)"', open(os.path.join(env.here, "traits", "src", "lib.rs")).read().split("COVERED")[1]))
+        declared = set()
+        for p in glob.glob(os.path.join(env.repo, "src", "**", "*.rs"), recursive=True):
+            for m in re.finditer(r"^\s*pub (?:struct|enum|union) (\w+)", open(p).read(), re.M):
+                declared.add(m.group(1))
+        missing = sorted(declared - covered)
+        inconc = ["public types not covered by the auto-trait assertions: %s" % ",".join(missing)] if missing else []
+        return {"name": "auto-traits", "profile": "build", "evaluations": len(covered) * len(res), "violations": violations, "replay_spec": None, "extra": {"builds": res, "types_asserted": sorted(covered)}, "samples": [{"types": len(covered), "builds": res}], "inconclusive": inconc}
+    return f
+
+
+def tsan_layer(env, prop="C15", scale=1.0):
+    @layer("tsan")
+    def f():
+        tdir = os.path.join(env.harness, "target-tsan")
+        try:
+            binary = build_harness(env, "release", toolchain="nightly", rustflags="-Zsanitizer=thread", target="x86_64-unknown-linux-gnu", target_dir=tdir, zflags=["-Zbuild-std"])
+        except LayerInconclusive as e:
+            raise LayerInconclusive("ThreadSanitizer build unavailable: %s" % str(e)[-300:])
+        e = {"TSAN_OPTIONS": "halt_on_error=0 exitcode=66 report_signal_unsafe=0"}
+        try:
+            r = run_tzmon(env, profile="tsan", binary=binary, scale=scale, prop=prop, name="tsan", extra_env=e, timeout=3000)
+            r["sanitizer_reports"] = 0
+            return r
+        except LayerInconclusive as ex:
+            msg = str(ex)
+            if "ThreadSanitizer" in msg or "status 66" in msg:
+                return {"name": "tsan", "profile": "tsan", "evaluations": 0, "sanitizer_reports": 1, "violations": [viol("ThreadSanitizer report", "tzmon %s seed %d" % (prop, env.seed), "no data race", msg[-400:], env.seed)], "replay_spec": None}
+            raise
+    return f
+
+
+def c15_layers(env):
+    ls = tzmon_layers(env)
+    ls.append(envmon_layer(env))
+    ls.append(strace_layer(env))
+    ls.append(sections_layer(env))
+    ls.append(traits_layer(env))
+    ls.append(miri_layer(env, 0.05, threads=4, seeds=None if env.quick() else "0..8", budget=30 if env.quick() else 600))
+    if not env.quick():
+        ls.append(tsan_layer(env))
+    return ls
+
+
+reg("C15", c15_layers, ["the 'all future edits' quantifier is a statement about source text: each run decides it for the tree it was built from", "helgrind/DRD are not used (futex noise on Rust); ThreadSanitizer (thorough) and Miri carry the data-race verdict"])
+reg("C07", std_layers(0.002))
+
+
+# ------------------------------------------------------------------------------------------------
+# C19: feature configurations
+
+FEATURE_SETS = [("none", None), ("alloc", "alloc"), ("std", "std")]
+
+
+def features_layer(env):
+    @layer("feature-matrix")
+    def f():
+        violations = []
+        builds = []
+        # 1. the crate itself builds in the three configurations (its own manifest, our target directory)
+        tdir = os.path.join(env.work, "repo-feature-target")
+        ok = {}
+        for name, feat in FEATURE_SETS:
+            cmd = ["cargo", "build", "--offline", "--manifest-path", os.path.join(env.repo, "Cargo.toml"), "--target-dir", tdir, "--no-default-features"] + (["--features", feat] if feat else [])
+            rc, out, err, wall = run(cmd, cwd=env.here, timeout=900)
+            ok[name] = rc == 0
+            builds.append({"features": name, "ok": rc == 0, "wall_s": round(wall, 1)})
+            if rc != 0:
+                ok[name + "_err"] = err.strip()[-400:]
+        if not ok["std"]:
+            raise LayerInconclusive("the crate does not build even with its default features: %s" % ok.get("std_err"))
+        for name, _ in FEATURE_SETS[:2]:
+            if not ok[name]:
+                violations.append(viol("feature configuration does not build", "cargo build --no-default-features%s" % ("" if name == "none" else " --features " + name), "builds (the statement says so)", ok.get(name + "_err", ""), env.seed))
+        # 2. the same deterministic workload against tz built with each feature set
+        digests = {}
+        counts = 0
+        n = 40000 if env.quick() else 1500000
+        for name, feat in FEATURE_SETS:
+            if not ok[name]:
+                continue
+            e = base_env()
+            e["CARGO_TARGET_DIR"] = os.path.join(env.here, "featcheck", "target-" + name)
+            cmd = ["cargo", "build", "--offline", "--release", "--no-default-features"] + (["--features", feat] if feat else [])
+            rc, out, err, wall = run(cmd, cwd=os.path.join(env.here, "featcheck"), env=e, timeout=900)
+            if rc != 0:
+                # the workload uses only API that the statement promises in this configuration
+                violations.append(viol("feature configuration: API promised without alloc/std is missing", "featcheck --features %s" % name, "builds", err.strip()[-400:], env.seed))
+                continue
+            binary = os.path.join(e["CARGO_TARGET_DIR"], "release", "featcheck")
+            for seed in (env.seed, env.seed + 1000):
+                rc, out, err, wall = run([binary, str(seed), str(n), os.path.join(env.corpus, "zoneinfo", "blobs")], timeout=900)
+                if rc != 0:
+                    violations.append(viol("feature configuration: workload crashed", "featcheck %s seed %d" % (name, seed), "exit 0", "exit %s %s" % (rc, err.strip()[-300:]), env.seed))
+                    continue
+                for ln in out.splitlines():
+                    kind, dig, cnt = ln.split()
+                    digests.setdefault((kind, seed), {})[name] = dig
+                    counts += int(cnt)
+        for (kind, seed), per in sorted(digests.items()):
+            vals = set(per.values())
+            if len(vals) > 1:
+                violations.append(viol("feature configurations disagree: the same workload gives different results", "%s workload seed %d" % (kind, seed), "identical digests in %s" % sorted(per.keys()), json.dumps(per, sort_keys=True), env.seed))
+            if kind == "core" and len(per) < 3 and all(ok[n_] for n_, _ in FEATURE_SETS):
+                violations.append(viol("feature configuration: core workload missing in a configuration", "seed %d" % seed, "3 digests", json.dumps(per), env.seed))
+        samples = [{"workload": k[0], "seed": k[1], "digests": v} for k, v in sorted(digests.items())][:4]
+        return {"name": "feature-matrix", "profile": "release", "evaluations": counts, "distinct_nontrivial": len(digests) * 3, "counts_distinct": True, "violations": violations, "replay_spec": None,
+                "rule": "cases = (feature set, workload, seed): the crate is built with no features, `alloc`, `std`; the core workload (borrowed zones, date-time construction, lookup, find_n, formatting into a fixed buffer; %d iterations x 2 seeds) and the alloc workload (owned zones, TZif and TZ-string parsing, allocating search) are run against each build and their result digests compared. distinct_nontrivial = (workload, seed, feature set) triples whose digest was compared." % n,
+                "extra": {"builds": builds, "digests": {"%s/%d" % k: v for k, v in digests.items()}}, "samples": samples, "inconclusive": [] if counts else ["no workload was executed"]}
+    return f
+
+
+reg("C19", lambda env: [features_layer(env)], ["the digest equality is differential; each build's results are pinned to the oracles by the other checks, which run the std build"])
